@@ -15,6 +15,8 @@ of `mask` (valIdx 0 = absent) is the answer; unknown ids/values answer false; th
                                        under every recv/emit pattern (then drain) → the set of streams the
                                        subscriber can be sent, `|`-separated, sorted
 ops: `add:i:v` `upd:i:v` `ups:i:v` `del:i`; times are dropped from `pull`/`burst` answers (`0`).
+`pull:keep1` / `pull:keep2` (and `burst:…`) add a read mask: messages are two-field tokens `ab`, the
+mask keeps the first resp. second field and the stripped one reads `_`.
 -/
 namespace ScVerif.C08
 open ScVerif.Line ScVerif.C09
@@ -62,20 +64,34 @@ def showItems (l : List (String × String)) : String :=
   if l.isEmpty then "-" else ",".intercalate (l.map (fun iv => iv.1 ++ "=" ++ iv.2))
 
 /-- `List(WithInclude p)` with ids attached (the harness re-attaches them through the values). -/
-def listOf (p : Option (Pred String String)) (items : List (String × String)) : String :=
-  showItems (sortById (itemSlice p items))
+def listOf (p : Option (Pred String String)) (proj : String → String) (items : List (String × String)) : String :=
+  showItems ((sortById (itemSlice p items)).map (fun iv => (iv.1, proj iv.2)))
 
 def zeroTime (c : SChange) : SChange := { c with time := 0 }
 
-def pullAfter (p : Option (Pred String String)) (items : List (String × String)) :
+/-- The projections of the read masks the harness uses on two-field message tokens. -/
+def maskProj (m : String) : Option (String → String) :=
+  if m = "none" then some id
+  else if m = "keep1" then some (fun s => match s.toList with | [a, _] => String.ofList [a, '_'] | _ => s)
+  else if m = "keep2" then some (fun s => match s.toList with | [_, b] => String.ofList ['_', b] | _ => s)
+  else none
+
+/-- `pull` / `pull:<mask>` -/
+def parseOpName? (name : String) (s : String) : Option (String → String) :=
+  if s = name then some id
+  else match s.splitOn ":" with
+    | [n, m] => if n = name then maskProj m else none
+    | _ => none
+
+def pullAfter (p : Option (Pred String String)) (proj : String → String) (items : List (String × String)) :
     List (Op String String) → List String
   | [] => []
   | op :: ops =>
     let r := stepOp 0 items op
     let ev := match r.2 with
       | none => "fail"
-      | some c => showOptChange ((includeChange p c).map zeroTime)
-    (ev ++ "@" ++ listOf p r.1) :: pullAfter p r.1 ops
+      | some c => showOptChange ((pullEvent p proj c).map zeroTime)
+    (ev ++ "@" ++ listOf p proj r.1) :: pullAfter p proj r.1 ops
 
 /-- Every stream `mergeCollectionExcess` can emit for the inputs `ins`, over all recv/emit patterns,
 draining at the end. -/
@@ -95,15 +111,17 @@ def handle? (toks : List String) : Option String :=
     let p ← parsePred? p
     let c ← parseChange? c
     pure (showOptChange (includeChange p c))
-  | "pull" :: p :: n :: ops => do
+  | op :: p :: n :: ops => do
+    if let some proj := parseOpName? "pull" op then
     let p ← parsePred? p
     let n ← parseNat? n
     let ops ← ops.mapM parseOp?
     if n > ops.length then none
     let before := runOps 0 [] (ops.take n)
-    let seedEvs := seedFrom 0 (sortById (itemSlice p before.1))
-    pure (" ".intercalate (("seed=" ++ showChanges seedEvs) :: pullAfter p before.1 (ops.drop n)))
-  | "burst" :: p :: n :: ops => do
+    let seedEvs := (seedFrom 0 (sortById (itemSlice p before.1))).map (maskChange proj)
+    pure (" ".intercalate (("seed=" ++ showChanges seedEvs) :: pullAfter p proj before.1 (ops.drop n)))
+    else
+    let proj ← parseOpName? "burst" op
     let p ← parsePred? p
     let n ← parseNat? n
     let ops ← ops.mapM parseOp?
@@ -112,7 +130,7 @@ def handle? (toks : List String) : Option String :=
     let after := runOps 0 before.1 (ops.drop n)
     let ins := after.2.map zeroTime
     let streams := (allEmits (2 * ins.length + 2) MState.init ins).map
-      (fun em => showChanges (em.filterMap (includeChange p)))
+      (fun em => showChanges (em.filterMap (pullEvent p proj)))
     pure ("|".intercalate streams.eraseDups)
   | _ => none
 
